@@ -383,6 +383,12 @@ def mk_ite(c, t, e):
             c, t, e = c2, e, t
     if vkey(t) == vkey(e):
         return t
+    ca_ = single_atom(c) if isinstance(c, Poly) else None
+    if ca_ is not None and atom_fn(ca_) == "std::cmp::Ordering::is_eq" and isinstance(e, Poly) and atom_args(ca_)[0] == e:
+        # if o.is_eq() { x } else { o }  is  o.then(x)
+        return app("ordering_then", e, t)
+    if ca_ is not None and atom_fn(ca_) == "std::cmp::Ordering::is_ne" and isinstance(t, Poly) and atom_args(ca_)[0] == t:
+        return app("ordering_then", t, e)
     return app("ite", c, t, e)
 
 
@@ -1043,11 +1049,32 @@ class SymEval:
                 all(isinstance(x, tuple) and len(x) == 3 and x[0] == "ctor" and len(x[2]) == 1 for x in args) and args[0][1] == args[1][1]:
             # comparing two values of the same single-payload variant compares the payloads
             return self.call_fn(path, inst, [args[0][2][0], args[1][2][0]], n, env)
+        if path in ("std::cmp::Ord::cmp", "std::cmp::PartialOrd::partial_cmp") and len(args) == 2:
+            # decided comparisons: two booleans (false < true), None against None / Some (None < Some)
+            rank = lambda x: (int(x[1]) if isinstance(x, tuple) and len(x) == 2 and x[0] == "bool" else
+                              0 if x == ("variant", "None") else
+                              1 if isinstance(x, tuple) and len(x) == 3 and x[0] == "ctor" and x[1] == "Some" else None)
+            ra_, rb_ = rank(args[0]), rank(args[1])
+            both_bool = all(isinstance(x, tuple) and len(x) == 2 and x[0] == "bool" for x in args)
+            both_opt = not any(isinstance(x, tuple) and len(x) == 2 and x[0] == "bool" for x in args)
+            if ra_ is not None and rb_ is not None and (both_bool or (both_opt and (ra_, rb_) != (1, 1))):
+                o = ("variant", "Less" if ra_ < rb_ else "Greater" if ra_ > rb_ else "Equal")
+                return o if path.endswith("::cmp") else ("ctor", "Some", [o])
         if path in ("std::cmp::Ordering::then_with", "std::cmp::Ordering::then") and len(args) == 2:
+            first = args[0]
+            if isinstance(first, tuple) and first and first[0] == "variant" and first[1] in ("Less", "Greater"):
+                return first
             second = args[1]
             if isinstance(second, tuple) and second and second[0] in ("closure", "fn"):
                 second = self.apply(second, [])
-            return app("ordering_then", args[0], second)
+            if first == ("variant", "Equal"):
+                return second
+            return app("ordering_then", first, second)
+        if path in ("std::cmp::Ordering::is_eq", "std::cmp::Ordering::is_ne") and len(args) == 1 and \
+                isinstance(args[0], tuple) and args[0] and args[0][0] == "variant":
+            return ("bool", (args[0][1] == "Equal") == path.endswith("is_eq"))
+        if path == "std::cmp::Ordering::reverse" and len(args) == 1 and isinstance(args[0], tuple) and args[0] and args[0][0] == "variant":
+            return ("variant", {"Less": "Greater", "Greater": "Less"}.get(args[0][1], args[0][1]))
         mm0 = STD_NUM_RX.match(path or "")
         if mm0 and mm0.group(2) == "checked_sub" and len(args) == 2 and isinstance(args[0], Poly) and isinstance(args[1], Poly) and "impl u" in path:
             # a.checked_sub(b) on unsigned integers: Some(a - b) exactly when b <= a
@@ -1241,6 +1268,10 @@ class SymEval:
                 return build_match(src, [(self.SOME_KEY, self.apply(args[2], [val])), (repr("None"), args[1])])
             if base == "map_or_else" and len(args) == 3 and fnlike(args[1]) and fnlike(args[2]):
                 return build_match(src, [(self.SOME_KEY, self.apply(args[2], [val])), (repr("None"), self.apply(args[1], []))])
+            if base == "ok_or" and len(args) == 2:
+                return build_match(src, [(self.SOME_KEY, ("ctor", "Ok", [val])), (repr("None"), ("ctor", "Err", [args[1]]))])
+            if base == "ok_or_else" and len(args) == 2 and fnlike(args[1]):
+                return build_match(src, [(self.SOME_KEY, ("ctor", "Ok", [val])), (repr("None"), ("ctor", "Err", [self.apply(args[1], [])]))])
             if base in ("is_some", "is_none") and is_opt and len(args) == 1:
                 m = app("matches", src, self.SOME_KEY)
                 return m if base == "is_some" else app("not", m)
